@@ -444,6 +444,39 @@ pub fn gen_random(seed: u64, idx: u64) -> Plan {
     let mut nonce = 1u64;
     let mut conns = Vec::new();
     let tls = r.chance(1, 5);
+    if r.chance(1, 60) {
+        // A long series of requests whose handler panics, each on a
+        // connection of its own, with a healthy client before, in between and
+        // after: whatever a panic leaves behind must not add up.
+        let n = r.usize_in(1_050, 1_400);
+        let mut cs = Vec::new();
+        let mut h = healthy_conn(&mut r, &mut nonce, 10_000, 100);
+        h.start_ms = 0;
+        cs.push(h);
+        for i in 0..n {
+            let mut c = blank_conn(15_000 + (i % 40_000) as u16);
+            c.start_ms = 200 + i as u64 * 3;
+            let w = WorkReq { nonce, steps: 0, step_ms: 0, panic_at: 1, resp_bytes: 0, body: None, chunked: None };
+            nonce += 1;
+            c.steps.push(Step::Send { data: Blob(w.bytes()), completes: Some(0) });
+            c.steps.push(Step::AwaitResponses { count: 1, max_ms: 5_000 });
+            c.reqs.push(w.plan());
+            cs.push(c);
+        }
+        let mut h = healthy_conn(&mut r, &mut nonce, 10_001, 100);
+        h.start_ms = 200 + n as u64 * 3 + 500;
+        cs.push(h);
+        return Plan {
+            property: "C18".into(),
+            seed: mix(seed, idx),
+            server: ServerPlan { mode, body_limit: 1024, api: ApiKind::All, rt_override: None, tls: false },
+            conns: cs,
+            shutdown: None,
+            accept_errs: vec![],
+            final_health: true,
+            note: format!("random idx={idx} {n} panicking handlers in a row"),
+        };
+    }
     let nh = r.usize_in(1, 2);
     for i in 0..nh {
         let mut c = healthy_conn(&mut r, &mut nonce, 10_000 + i as u16, span);
